@@ -7,7 +7,7 @@
    (convert_path_str, convert_points with its index loops), Model/HitSamples.v.
    Specification written from the property text: Model/HitObjectSpec.v. *)
 From RM Require Import Model.Text Model.Num Model.HitSamples Model.PathString
-     Model.HitObjectLine Model.HitObjectSpec.
+     Model.HitObjectLine Model.HitObjectSpec Model.Drv14.
 From RM Require Import Proofs.HitSamplesFacts Proofs.PathStringFacts Proofs.FloatFacts14
      Proofs.HitObjectLineFacts Proofs.C14Clauses.
 From RM Require Import Gen.Generated.
@@ -280,6 +280,35 @@ Example D3_witness :
   obs_cp_counts (run_lines 0 [bad; good]) = [4] /\
   obs_cp_counts (run_lines 0 [good]) = [2].
 Proof. repeat split; vm_compute; reflexivity. Qed.
+
+(* the same on the canonical dumps of the correspondence driver: the dump
+   after [bad; good] (minus the two result codes) differs from the dump after
+   [good] alone (minus its result code) *)
+Definition enc_case (mode : Z) (lines : list str) : list Z :=
+  mode :: flat_map (fun l => Z.of_nat (length l) :: l) lines.
+Example D3_witness_on_dumps :
+  let bad := lit "1,1,0,2,0,B|100:100|L|200:0|P|x:0,1,300" in
+  let good := lit "1,1,0,2,0,L|50:50,1,50" in
+  firstn 2 (Drv14.run_c14 (enc_case 0 [bad; good])) = [1; 0] /  firstn 1 (Drv14.run_c14 (enc_case 0 [good])) = [0] /  skipn 2 (Drv14.run_c14 (enc_case 0 [bad; good])) <> skipn 1 (Drv14.run_c14 (enc_case 0 [good])).
+Proof. repeat split; vm_compute; try reflexivity. discriminate. Qed.
+
+(* [vertices] is scratch: whatever it holds, the outcome and every other field are the same *)
+Theorem C14_vertices_scratch :
+  forall st v line st1 r1 st2 r2,
+  parse_hit_objects st line = Done (st1, r1) ->
+  parse_hit_objects (with_vertices st v) line = Done (st2, r2) ->
+  r1 = r2 /\ with_vertices st1 [] = with_vertices st2 [].
+Proof. exact vertices_irrelevant. Qed.
+Print Assumptions C14_vertices_scratch.
+
+(* the slider fields read before the path (repeat cap, repeats - 1 floored at
+   0, length rule, repeats + 2 node sample sets by position with defaults for
+   missing entries and surplus entries ignored): no panic, and the
+   position-indexed [slider_fields_spec] *)
+Theorem C14_slider_fields :
+  forall sound rest, parse_slider_pre sound rest = Done (slider_fields_spec sound rest).
+Proof. exact parse_slider_pre_spec. Qed.
+Print Assumptions C14_slider_fields.
 
 (* non-vacuity: the four kinds are produced, with the documented fields *)
 Example C14_nonvacuous :
